@@ -646,9 +646,12 @@ pub fn diff_full(a: &Full, b: &Full) -> String {
     if a.last != b.last {
         d.push(format!("last-message pointer {:?} -> {:?}", a.last, b.last));
     }
+    if a.snapshots != b.snapshots {
+        d.push(format!("stored rollback snapshots {:?} -> {:?}", a.snapshots, b.snapshots));
+    }
     if a.msgs_created != b.msgs_created {
-        let ids_a: Vec<_> = a.msgs_created.iter().map(|m| (&m.id[..8], &m.state)).collect();
-        let ids_b: Vec<_> = b.msgs_created.iter().map(|m| (&m.id[..8], &m.state)).collect();
+        let ids_a: Vec<_> = a.msgs_created.iter().map(|m| (crate::fingerprint::sh(&m.id, 8), &m.state)).collect();
+        let ids_b: Vec<_> = b.msgs_created.iter().map(|m| (crate::fingerprint::sh(&m.id, 8), &m.state)).collect();
         d.push(format!("messages {ids_a:?} -> {ids_b:?}"));
     } else if a.msgs_processed != b.msgs_processed {
         d.push("processed-at ordering of messages changed".into());
@@ -727,7 +730,7 @@ pub fn check_messages(w: &World, chain: &[ChainState], mode: Mode) -> Result<Msg
                 if !seen.insert(x.id.clone()) {
                     return Err(Failure::new(
                         "message-listed-twice",
-                        format!("c{m}: message {} appears twice in the {name} listing", &x.id[..8]),
+                        format!("c{m}: message {} appears twice in the {name} listing", crate::fingerprint::sh(&x.id, 8)),
                     ));
                 }
             }
@@ -803,6 +806,37 @@ pub fn check_messages(w: &World, chain: &[ChainState], mode: Mode) -> Result<Msg
                                 }
                             }
                         }
+                        // sender-ratchet window (configurable): a message too far ahead of, or too
+                        // far behind, what the receiver had already been given from that sender in
+                        // that epoch may be refused. Rollbacks reset the receiver's ratchet to an
+                        // earlier position, so the exact head is not known: the message MUST be
+                        // accepted only if it is inside the window for every head between 0 and
+                        // the highest position handed over before (one position of slack).
+                        if excuse.is_none() && e.author != m {
+                            if let Some(g) = e.generation {
+                                let highest_before = w
+                                    .relay
+                                    .iter()
+                                    .enumerate()
+                                    .filter(|(j, o)| *j != idx && o.class == Class::App && o.author == e.author && o.base == e.base)
+                                    .filter_map(|(j, o)| cl.delivered.get(&j).filter(|d| d.first_seq < r.first_seq).and(o.generation))
+                                    .max();
+                                let head_max = highest_before.map(|h| h + 1).unwrap_or(0);
+                                let fwd = cl.cfg.maximum_forward_distance;
+                                let tol = cl.cfg.out_of_order_tolerance;
+                                let too_far_ahead = g + 1 >= fwd;
+                                let too_far_behind = g < head_max && head_max - g + 1 >= tol;
+                                if too_far_ahead || too_far_behind {
+                                    rep.dont_care += 1;
+                                    rep.classes.insert(if too_far_ahead { "outside-the-forward-distance".into() } else { "outside-the-out-of-order-tolerance".into() });
+                                    continue;
+                                }
+                                if g > head_max + 2 || (g + 2 < head_max) {
+                                    rep.classes.insert("skipped-or-late-inside-the-ratchet-window".into());
+                                    rep.nontrivial += 1;
+                                }
+                            }
+                        }
                         if excuse.is_none() && !r.first_routed {
                             excuse = Some((
                                 "O23-event-tagged-with-superseded-nostr-group-id-is-dropped",
@@ -825,8 +859,8 @@ pub fn check_messages(w: &World, chain: &[ChainState], mode: Mode) -> Result<Msg
                             excuse = None;
                             Some(format!(
                                 "differs from what the sender created: stored ({}, kind {}, at {}, {:?}, tags {}) vs sent ({}, kind {}, at {}, {:?}, tags {})",
-                                &x.pubkey[..8], x.kind, x.created_at, x.content, x.tags,
-                                &rumor.pubkey.to_hex()[..8], rumor.kind.as_u16(), rumor.created_at.as_secs(), rumor.content, want_tags
+                                crate::fingerprint::sh(&x.pubkey, 8), x.kind, x.created_at, x.content, x.tags,
+                                crate::fingerprint::sh(&rumor.pubkey.to_hex(), 8), rumor.kind.as_u16(), rumor.created_at.as_secs(), rumor.content, want_tags
                             ))
                         } else if x.state != "processed" {
                             Some(format!("is in state {:?} instead of processed", x.state))
@@ -947,13 +981,13 @@ impl PointerObserver {
                     "after {what} at c{who} ({:?}, step {}): pointer (id {:?}, at {:?}, processed {:?}) but the first non-invalidated message of the default order is (id {:?}, at {:?}, processed {:?}); listing: {:?}",
                     w.clients[who].kind,
                     w.step,
-                    got.0.as_ref().map(|s| &s[..8]),
+                    got.0.as_ref().map(|s| crate::fingerprint::sh(&s, 8)),
                     got.1,
                     got.2,
-                    want.0.as_ref().map(|s| &s[..8]),
+                    want.0.as_ref().map(|s| crate::fingerprint::sh(&s, 8)),
                     want.1,
                     want.2,
-                    f.msgs_created.iter().map(|m| format!("{}@{}/{}:{}", &m.id[..6], m.created_at, m.processed_at, m.state)).collect::<Vec<_>>()
+                    f.msgs_created.iter().map(|m| format!("{}@{}/{}:{}", crate::fingerprint::sh(&m.id, 6), m.created_at, m.processed_at, m.state)).collect::<Vec<_>>()
                 ),
             ));
         }
@@ -1105,7 +1139,7 @@ impl Observer for AuthzObserver {
                         if id2 != id && !removed.contains(id) {
                             return Err(Failure::new(
                                 "identity-changed-at-existing-leaf",
-                                format!("{}; leaf {i} changed identity {} -> {}", describe(), &id[..8], &id2[..8]),
+                                format!("{}; leaf {i} changed identity {} -> {}", describe(), crate::fingerprint::sh(&id, 8), crate::fingerprint::sh(&id2, 8)),
                             ));
                         }
                     }
@@ -1119,8 +1153,8 @@ impl Observer for AuthzObserver {
                             format!(
                                 "{}; author is not an admin in the receiver's epoch, yet removed {:?}, added {:?}, data changed: {}",
                                 describe(),
-                                removed.iter().map(|s| &s[..8]).collect::<Vec<_>>(),
-                                added.iter().map(|s| &s[..8]).collect::<Vec<_>>(),
+                                removed.iter().map(|s| crate::fingerprint::sh(&s, 8)).collect::<Vec<_>>(),
+                                added.iter().map(|s| crate::fingerprint::sh(&s, 8)).collect::<Vec<_>>(),
                                 data_changed
                             ),
                         ));
@@ -1163,11 +1197,11 @@ impl Observer for AuthzObserver {
                         let detail = format!(
                             "{}; the call named removed {:?} / added {:?} / data change {}, but the receiver saw removed {:?}, added {:?}, data changed {}",
                             describe(),
-                            ev.named.removed.iter().map(|s| &s[..8]).collect::<Vec<_>>(),
-                            ev.named.added.iter().map(|s| &s[..8]).collect::<Vec<_>>(),
+                            ev.named.removed.iter().map(|s| crate::fingerprint::sh(&s, 8)).collect::<Vec<_>>(),
+                            ev.named.added.iter().map(|s| crate::fingerprint::sh(&s, 8)).collect::<Vec<_>>(),
                             ev.named.data_change,
-                            removed.iter().map(|s| &s[..8]).collect::<Vec<_>>(),
-                            added.iter().map(|s| &s[..8]).collect::<Vec<_>>(),
+                            removed.iter().map(|s| crate::fingerprint::sh(&s, 8)).collect::<Vec<_>>(),
+                            added.iter().map(|s| crate::fingerprint::sh(&s, 8)).collect::<Vec<_>>(),
                             data_changed
                         );
                         if by_o9 && !self.strict {
@@ -1193,10 +1227,10 @@ impl Observer for AuthzObserver {
                                 format!(
                                     "{}; the call named removed {:?} / added {:?}, but at the receiver {:?} were not removed and {:?} not added",
                                     describe(),
-                                    ev.named.removed.iter().map(|s| &s[..8]).collect::<Vec<_>>(),
-                                    ev.named.added.iter().map(|s| &s[..8]).collect::<Vec<_>>(),
-                                    missing_removed.iter().map(|s| &s[..8]).collect::<Vec<_>>(),
-                                    missing_added.iter().map(|s| &s[..8]).collect::<Vec<_>>()
+                                    ev.named.removed.iter().map(|s| crate::fingerprint::sh(&s, 8)).collect::<Vec<_>>(),
+                                    ev.named.added.iter().map(|s| crate::fingerprint::sh(&s, 8)).collect::<Vec<_>>(),
+                                    missing_removed.iter().map(|s| crate::fingerprint::sh(&s, 8)).collect::<Vec<_>>(),
+                                    missing_added.iter().map(|s| crate::fingerprint::sh(&s, 8)).collect::<Vec<_>>()
                                 ),
                             ));
                         }
@@ -1254,7 +1288,7 @@ impl AuthorBindingObserver {
                     if x.pubkey != want {
                         return Err(Failure::new(
                             "message-attributed-to-wrong-identity",
-                            format!("{ctx}: c{who} group#{gi} stores message {:?} under author {} but it was produced by c{a} ({})", x.content, &x.pubkey[..8], &want[..8]),
+                            format!("{ctx}: c{who} group#{gi} stores message {:?} under author {} but it was produced by c{a} ({})", x.content, crate::fingerprint::sh(&x.pubkey, 8), crate::fingerprint::sh(&want, 8)),
                         ));
                     }
                 }
@@ -1266,7 +1300,7 @@ impl AuthorBindingObserver {
                     if ev.pubkey.to_hex() != x.pubkey || ev.content != x.content || ev.created_at.as_secs() != x.created_at || ev.kind.as_u16() != x.kind {
                         return Err(Failure::new(
                             "stored-event-differs-from-stored-columns",
-                            format!("{ctx}: c{who} message {}", &x.id[..8]),
+                            format!("{ctx}: c{who} message {}", crate::fingerprint::sh(&x.id, 8)),
                         ));
                     }
                 }
@@ -1277,7 +1311,7 @@ impl AuthorBindingObserver {
                             "stored-id-is-not-the-hash-of-stored-fields",
                             format!(
                                 "{ctx}: c{who} stores message {:?} under id {} but the NIP-01 hash of its author, timestamp, kind, tags and content is {:?}",
-                                x.content, &x.id[..12], other.map(|s| s[..12].to_string())
+                                x.content, crate::fingerprint::sh(&x.id, 12), other.map(|s| s[..12].to_string())
                             ),
                         ));
                     }
@@ -1363,14 +1397,14 @@ impl Observer for AuthorBindingObserver {
                                 "foreign-message-altered",
                                 format!(
                                     "{ctx}: group#{gi} message {} of another author changed: ({}, {:?}, {}) -> ({}, {:?}, {})",
-                                    &y.id[..8], &y.pubkey[..8], y.content, y.state, &x.pubkey[..8], x.content, x.state
+                                    crate::fingerprint::sh(&y.id, 8), crate::fingerprint::sh(&y.pubkey, 8), y.content, y.state, crate::fingerprint::sh(&x.pubkey, 8), x.content, x.state
                                 ),
                             ));
                         }
                         None => {
                             return Err(Failure::new(
                                 "foreign-message-removed",
-                                format!("{ctx}: group#{gi} message {} ({:?}) of another author disappeared", &y.id[..8], y.content),
+                                format!("{ctx}: group#{gi} message {} ({:?}) of another author disappeared", crate::fingerprint::sh(&y.id, 8), y.content),
                             ));
                         }
                     }
@@ -1420,8 +1454,13 @@ impl ConfidentialityObserver {
         }
         let idx_of = Self::content_index(w);
         let me = w.clients[who].pk_hex();
-        for f in w.full_all(who) {
+        for (gi, f) in w.full_all(who).into_iter().enumerate() {
             for x in &f.msgs_created {
+                // a main-group message its author also posted into the second group is held there
+                // by that group's members, whoever they are in the main group
+                if gi > 0 && w.side.as_ref().map(|s| s.crossposted.contains(&x.content)).unwrap_or(false) {
+                    continue;
+                }
                 let Some(&src) = idx_of.get(&x.content) else { continue };
                 if w.relay[src].author == who {
                     continue;
@@ -1511,8 +1550,8 @@ impl Observer for ConfidentialityObserver {
                         "commit #{idx} ({}) by c{} removed {:?}; after applying it c{who} still lists {:?} as member(s): they keep receiving every later epoch's secrets",
                         dev.what,
                         dev.author,
-                        dev.named.removed.iter().map(|r| &r[..8]).collect::<Vec<_>>(),
-                        still.iter().map(|r| &r[..8]).collect::<Vec<_>>()
+                        dev.named.removed.iter().map(|r| crate::fingerprint::sh(&r, 8)).collect::<Vec<_>>(),
+                        still.iter().map(|r| crate::fingerprint::sh(&r, 8)).collect::<Vec<_>>()
                     ),
                 ));
             }
